@@ -3086,6 +3086,31 @@ static void mig_dummy(void *arg)
         ABT_thread_yield();
 }
 
+/* phase E unit: parks once, then runs two more slices */
+typedef struct {
+    ABT_pool home;
+    int cbs, slices_elsewhere;
+} me_unit_t;
+static int c_mrej_own_multi;
+static void me_cb(ABT_thread th, void *arg)
+{
+    (void)th;
+    __atomic_fetch_add(&((me_unit_t *)arg)->cbs, 1, __ATOMIC_SEQ_CST);
+}
+static void me_unit_fn(void *arg)
+{
+    me_unit_t *u = (me_unit_t *)arg;
+    ABT_self_get_last_pool(&u->home);
+    ABT_self_suspend();
+    for (int i = 0; i < 3; i++) {
+        ABT_pool p;
+        ABT_self_get_last_pool(&p);
+        if (p != u->home)
+            u->slices_elsewhere++;
+        ABT_thread_yield();
+    }
+}
+
 static void mig_observer(int id)
 {
     if (id == ABTI_VERIF_P_MIGRATE_BEFORE_CLEAR)
@@ -3289,6 +3314,52 @@ static void run_migrate(vrt_rng *r, int idx)
         VRT_ABT(ABT_thread_free(&t));
         vrt_count(c_mfirst_race, 1);
     }
+    /* --- phase E: a stream whose scheduler has several pools; a unit parked
+     * in any of them may not be "migrated" to its own stream or scheduler --- */
+    if (vrt_num_violations() == 0) {
+        ABT_pool q[3];
+        int nq = 2 + (int)vrt_range(r, 2);
+        for (int i = 0; i < nq; i++)
+            VRT_ABT(ABT_pool_create_basic(ABT_POOL_FIFO, ABT_POOL_ACCESS_MPMC, ABT_TRUE, &q[i]));
+        ABT_sched qs;
+        ABT_xstream qx;
+        VRT_ABT(ABT_sched_create_basic(sp[vrt_range(r, 3)], nq, q, ABT_SCHED_CONFIG_NULL, &qs));
+        VRT_ABT(ABT_xstream_create(qs, &qx));
+        for (int i = 0; i < nq && vrt_num_violations() == 0; i++) {
+            me_unit_t u;
+            memset(&u, 0, sizeof(u));
+            ABT_thread t;
+            VRT_ABT(ABT_thread_create(q[i], me_unit_fn, &u, ABT_THREAD_ATTR_NULL, &t));
+            VRT_ABT(ABT_thread_set_callback(t, me_cb, &u));
+            for (;;) {
+                ABT_thread_state st;
+                VRT_ABT(ABT_thread_get_state(t, &st));
+                if (st == ABT_THREAD_STATE_BLOCKED)
+                    break;
+                ABT_thread_yield();
+            }
+            int rc1 = ABT_thread_migrate_to_xstream(t, qx);
+            int rc2 = ABT_thread_migrate_to_sched(t, qs);
+            int rc3 = ABT_thread_migrate_to_pool(t, q[i]);
+            if (rc1 == ABT_SUCCESS || rc2 == ABT_SUCCESS || rc3 == ABT_SUCCESS)
+                vrt_violation("migrate:request-to-current-pool-accepted",
+                              "unit parked in pool %d of %d of a stream's scheduler: migrate_to_xstream(own stream) returned %d, "
+                              "migrate_to_sched(own scheduler) %d, migrate_to_pool(own pool) %d; all must be rejected", i, nq,
+                              rc1, rc2, rc3);
+            VRT_ABT(ABT_thread_resume(t));
+            VRT_ABT(ABT_thread_join(t));
+            ABT_pool lp;
+            VRT_ABT(ABT_thread_get_last_pool(t, &lp));
+            if (vrt_num_violations() == 0)
+                VRT_CHECK(lp == q[i] && u.cbs == 0 && u.slices_elsewhere == 0, "migrate:rejected-request-had-effect",
+                          "rejected requests naming the unit's own stream/scheduler/pool: last pool %s, %d callbacks, %d "
+                          "slices in another pool", lp == q[i] ? "unchanged" : "changed", u.cbs, u.slices_elsewhere);
+            VRT_ABT(ABT_thread_free(&t));
+            vrt_count(c_mrej_own_multi, 1);
+        }
+        VRT_ABT(ABT_xstream_join(qx));
+        VRT_ABT(ABT_xstream_free(&qx));
+    }
     VRT_CHECK(g_m.done == 1 && g_m.starts == 1, "migrate:not-exactly-once", "starts=%d done=%d", g_m.starts, g_m.done);
     VRT_CHECK(!g_m.cb_bad, "migrate:callback-arguments", "the migration callback received a wrong thread handle or argument");
     VRT_CHECK(g_m.cb_count >= g_m.changes, "migrate:fewer-callbacks-than-moves", "%d pool changes observed, %d callbacks",
@@ -3474,6 +3545,7 @@ int main(int argc, char **argv)
         c_mconc_req = vrt_counter("concurrent_requests");
         c_mself_req = vrt_counter("self_issued_requests");
         c_mcb = vrt_counter("callbacks");
+        c_mrej_own_multi = vrt_counter("rejected_own_stream_with_multi_pool_scheduler");
         c_mrej_same_pool = vrt_counter("rejected_current_pool");
         c_mrej_nonmigratable = vrt_counter("rejected_non_migratable");
         c_mrej_mainsched = vrt_counter("rejected_main_scheduler_ult");
